@@ -35,6 +35,8 @@ try:
         print(json.dumps(r)[:700])
 finally:
     sh('git -C /repo checkout -- . && git -C /repo clean -fdq')
+    # evidence written while a seeded change was applied is not evidence about the real tree
+    sh('cd /verif && git checkout -- evidence 2>/dev/null; rm -rf /verif/evidence/replay')
 with open('/verif/seeded/RESULTS.jsonl', 'a') as f:
     for r in results:
         f.write(json.dumps(r) + '\n')
